@@ -20,11 +20,27 @@
   name existing children a.children[i], b.children[j], and `Accounts` holds for it on those children (key/value
   pairs: children [key, value]; strings: their characters).
 
+  Whole documents, second sentence of the property (`project_from`, `project_to`, Proofs/EditsProject.lean):
+  `projectFrom a b s` / `projectTo a b s` REBUILD a document from the script: container types from the kinds of the
+  compound edits, children = the sub-edits in script order without the insertions (resp. removals), compound
+  sub-edits projected recursively, a sub-edit without sub-edits (Match / Replace / Remove / Insert) contributes the
+  node its recorded index names among the children of the node pair its parent relates (the model's scripts carry
+  indices and costs, not values: the documents are consulted only for that look-up, never compared).  Proved for
+  every oracle, all options, trees with distinct keys:
+      projectFrom f t (edits … f t) = some f'  with  f'.Sim f        projectTo f t (edits … f t) = some t'  with  t'.Sim t
+  where `Tree.Sim` = equal up to the ORDER of the pairs of mappings at every depth (MultiSetEdit / FixedKeyDictNodeEdit
+  list matched pairs, then removals, then insertions); for documents without mappings it is equality
+  (`project_from_mapFree`, `project_to_mapFree`).  What this does NOT cover: the marks on the real `EditedTreeNode`s
+  (`removed` / `inserted` / `edit.to_node`) are tied to the model's script by the `script` stream's monitor, not by a
+  theorem; `keep_reproduces` below is the older PER-NODE statement (it re-reads `LocalAcc` for one compound edit and
+  does not mention `edits`; kept as the registered per-node statement — `pick` / `pick_ixRange` are also used by C01x and C06).
+
   Hypothesis `Tree.KeysDistinct` (no mapping holds a key twice; true of every tree `build` makes from a Python dict,
   `build_keysDistinct`) is needed for the TO side of the two mapping edits only: with a duplicated key the model
   (like the Python code, which looks pairs up by key) would account one to-pair twice.
 -/
 import GtModel.Proofs.EditsBuild
+import GtModel.Proofs.EditsProject
 
 namespace GtModel.C01
 open GtModel
@@ -103,30 +119,18 @@ theorem script_accounts_docs (o : Opts) (orc : Oracle) (f t : Doc) (hf : f.KeysD
     Accounts (.tree (build o f)) (.tree (build o t)) (diffDocs o orc f t) :=
   script_accounts o orc [] [] _ _ (build_kd o f hf) (build_kd o t ht)
 
-/-! ### "discarding inserted reproduces the first document, discarding removed reproduces the second" -/
-
-/-- the children named by a list of indices -/
-def pick {α : Type} (l : List α) (ixs : List Ix) : List α :=
-  ixs.filterMap fun ix => match ix with | .at i => l[i]? | _ => none
+/-! ### "discarding inserted reproduces the first document, discarding removed reproduces the second": one node -/
 
 /-- the from-children a compound edit keeps when everything inserted is discarded -/
 def keepFrom (a : Nd) (subs : List Script) : List Nd := pick a.children (fromIdx subs)
 /-- the to-children a compound edit keeps when everything removed is discarded -/
 def keepTo (a b : Nd) (subs : List Script) : List Nd := pick b.children (toIdx (resolveSame a b) subs)
 
-theorem filterMap_getElem?_range {α : Type} (l : List α) :
-    (List.range l.length).filterMap (fun i => l[i]?) = l := by
-  induction l with
-  | nil => rfl
-  | cons x xs ih => simp [List.range_succ_eq_map, List.filterMap_map, Function.comp_def, ih]
-
-theorem pick_ixRange {α : Type} (l : List α) : pick l (ixRange l.length) = l := by
-  simp only [pick, ixRange, List.filterMap_map]
-  exact filterMap_getElem?_range l
-
-/-- every compound edit of the script, at every level, keeps exactly the children of the first node when the
-    insertions are discarded and exactly the children of the second when the removals are discarded
-    (in order for sequences, as multisets for mappings) -/
+/-- PER NODE ONLY (a re-reading of `LocalAcc` through `pick` for ONE compound edit; it does not mention `edits` and
+    does not descend — the whole-document statements are `project_from` / `project_to` below): a compound edit
+    that accounts for the children of `a` and `b` keeps exactly the children of the first node when the insertions are
+    discarded and exactly the children of the second when the removals are discarded (in order for sequences, as
+    multisets for mappings) -/
 theorem keep_reproduces {a b : Nd} {k : Kind} {subs : List Script} (h : LocalAcc a b k subs)
     (hk : k.hasSubs = true) :
     (k.ordered = true → keepFrom a subs = a.children ∧ keepTo a b subs = b.children) ∧
@@ -139,19 +143,106 @@ theorem keep_reproduces {a b : Nd} {k : Kind} {subs : List Script} (h : LocalAcc
   · intro ho
     simp only [ho, Bool.false_eq_true, if_false] at h
     constructor
-    · have := h.1.filterMap (fun ix => match ix with | .at i => a.children[i]? | _ => none)
-      rw [show List.filterMap _ (ixRange a.children.length) = pick a.children (ixRange a.children.length) from rfl,
-        pick_ixRange] at this
-      exact this
-    · have := h.2.filterMap (fun ix => match ix with | .at i => b.children[i]? | _ => none)
-      rw [show List.filterMap _ (ixRange b.children.length) = pick b.children (ixRange b.children.length) from rfl,
-        pick_ixRange] at this
-      exact this
+    · exact pick_perm' a.children h.1
+    · exact pick_perm' b.children h.2
 
 /-- the root of the script satisfies the premise of `keep_reproduces` (and so does every node below, by `script_accounts`) -/
 theorem keep_root (o : Opts) (orc : Oracle) (fp tp : List Nat) (f t : Tree) (hf : f.KeysDistinct) (ht : t.KeysDistinct) :
     LocalAcc (.tree f) (.tree t) (edits o orc fp tp f t).kind (edits o orc fp tp f t).subs :=
   ((walk_iff _ _ _).1 (script_accounts o orc fp tp f t hf ht)).1
+
+/-! ### "discarding inserted reproduces the first document, discarding removed reproduces the second": whole documents -/
+
+theorem nd_sim_tree {a : Nd} {f : Tree} (h : a.Sim (.tree f)) : ∃ f', a = .tree f' ∧ f'.Sim f := by
+  cases a with
+  | tree f' => exact ⟨f', rfl, h⟩
+  | kv _ _ => exact absurd h (by simp [Nd.Sim])
+  | chr _ => exact absurd h (by simp [Nd.Sim])
+
+/-- C01, sentence 2, for EVERY script that accounts for both nodes at every level (`Accounts`): discarding what is
+    marked inserted rebuilds the first node, discarding what is marked removed rebuilds the second (mappings up to
+    the order of their pairs) -/
+theorem project_of_accounts (a b : Nd) (s : Script) (h : Accounts a b s) :
+    (∃ a', projectFrom a b s = some a' ∧ a'.Sim a) ∧ (∃ b', projectTo a b s = some b' ∧ b'.Sim b) :=
+  ⟨projectFrom_ok a b s h, projectTo_ok a b s h⟩
+
+/-- C01, sentence 2, first half: rebuilding a document from the engine's script without everything marked inserted
+    gives the FIRST document (mappings up to the order of their pairs), for every oracle and all options -/
+theorem project_from (o : Opts) (orc : Oracle) (fp tp : List Nat) (f t : Tree) (hf : f.KeysDistinct) (ht : t.KeysDistinct) :
+    ∃ f', projectFrom (.tree f) (.tree t) (edits o orc fp tp f t) = some (.tree f') ∧ f'.Sim f := by
+  obtain ⟨a', h1, h2⟩ := projectFrom_ok _ _ _ (script_accounts o orc fp tp f t hf ht)
+  obtain ⟨f', rfl, h3⟩ := nd_sim_tree h2
+  exact ⟨f', h1, h3⟩
+
+/-- C01, sentence 2, second half: … without everything marked removed gives the SECOND document -/
+theorem project_to (o : Opts) (orc : Oracle) (fp tp : List Nat) (f t : Tree) (hf : f.KeysDistinct) (ht : t.KeysDistinct) :
+    ∃ t', projectTo (.tree f) (.tree t) (edits o orc fp tp f t) = some (.tree t') ∧ t'.Sim t := by
+  obtain ⟨b', h1, h2⟩ := projectTo_ok _ _ _ (script_accounts o orc fp tp f t hf ht)
+  obtain ⟨t', rfl, h3⟩ := nd_sim_tree h2
+  exact ⟨t', h1, h3⟩
+
+/-- for whole documents -/
+theorem project_from_docs (o : Opts) (orc : Oracle) (f t : Doc) (hf : f.KeysDistinct) (ht : t.KeysDistinct) :
+    ∃ f', projectFrom (.tree (build o f)) (.tree (build o t)) (diffDocs o orc f t) = some (.tree f') ∧
+      f'.Sim (build o f) :=
+  project_from o orc [] [] _ _ (build_kd o f hf) (build_kd o t ht)
+
+theorem project_to_docs (o : Opts) (orc : Oracle) (f t : Doc) (hf : f.KeysDistinct) (ht : t.KeysDistinct) :
+    ∃ t', projectTo (.tree (build o f)) (.tree (build o t)) (diffDocs o orc f t) = some (.tree t') ∧
+      t'.Sim (build o t) :=
+  project_to o orc [] [] _ _ (build_kd o f hf) (build_kd o t ht)
+
+/-! `Tree.Sim` identifies nothing but the order of mapping pairs: on trees without mappings it is equality -/
+
+mutual
+/-- no DictNode / FixedKeyDictNode anywhere (lists of lists of leaves: CSV tables, JSON arrays) -/
+def mapFree : Tree → Bool
+  | .leaf _ => true
+  | .list cs => mapFreeL cs
+  | .dict _ => false
+  | .fdict _ => false
+def mapFreeL : List Tree → Bool
+  | [] => true
+  | c :: cs => mapFree c && mapFreeL cs
+end
+
+mutual
+theorem sim_eq_of_mapFree : ∀ (f' f : Tree), f'.Sim f → mapFree f = true → f' = f
+  | .leaf a, f, h, _ => by simp only [Tree.Sim] at h; exact h.symm
+  | .list as, f, h, hm => by
+    simp only [Tree.Sim] at h
+    obtain ⟨bs, rfl, h2⟩ := h
+    simp only [mapFree] at hm
+    rw [simL_eq_of_mapFree as bs h2 hm]
+  | .dict as, f, h, hm => by
+    simp only [Tree.Sim] at h
+    obtain ⟨_, bs, rfl, _⟩ := h
+    simp [mapFree] at hm
+  | .fdict as, f, h, hm => by
+    simp only [Tree.Sim] at h
+    obtain ⟨_, bs, rfl, _⟩ := h
+    simp [mapFree] at hm
+theorem simL_eq_of_mapFree : ∀ (as bs : List Tree), SimL as bs → mapFreeL bs = true → as = bs
+  | [], bs, h, _ => by simp only [SimL] at h; exact h.symm
+  | a :: as, bs, h, hm => by
+    simp only [SimL] at h
+    obtain ⟨b, bs', rfl, h1, h2⟩ := h
+    simp only [mapFreeL, Bool.and_eq_true] at hm
+    rw [sim_eq_of_mapFree a b h1 hm.1, simL_eq_of_mapFree as bs' h2 hm.2]
+end
+
+/-- documents without mappings: the projections are the documents themselves -/
+theorem project_from_mapFree (o : Opts) (orc : Oracle) (fp tp : List Nat) (f t : Tree)
+    (hf : mapFree f = true) (hkf : f.KeysDistinct) (hkt : t.KeysDistinct) :
+    projectFrom (.tree f) (.tree t) (edits o orc fp tp f t) = some (.tree f) := by
+  obtain ⟨f', h1, h2⟩ := project_from o orc fp tp f t hkf hkt
+  rw [h1, sim_eq_of_mapFree f' f h2 hf]
+
+theorem project_to_mapFree (o : Opts) (orc : Oracle) (fp tp : List Nat) (f t : Tree)
+    (ht : mapFree t = true) (hkf : f.KeysDistinct) (hkt : t.KeysDistinct) :
+    projectTo (.tree f) (.tree t) (edits o orc fp tp f t) = some (.tree t) := by
+  obtain ⟨t', h1, h2⟩ := project_to o orc fp tp f t hkf hkt
+  rw [h1, sim_eq_of_mapFree t' t h2 ht]
 
 /-! ### non-vacuity and concrete instances
 
@@ -185,6 +276,136 @@ example : fromIdx (fixedScript [.leaf .null, .leaf (.float [49]), .leaf .null] [
 /-- the index bookkeeping notices an element that is accounted twice or not at all -/
 example : fromIdx [mkRemove 0 1 1, mkRemove 0 1 1] ≠ ixRange 2 := by decide
 example : fromIdx [mkRemove 1 1 1] ≠ ixRange 2 := by decide
+
+/-! ### whole-document projections on a concrete 3-level pair (mapping → list → string)
+
+  `{"a":[1,2,"xy"],"b":2,"c":3}` → `{"a":[2,"xzy",3],"c":3,"d":2}` without automatic key matching; the solver pairs
+  a↦a and b↦d.  `pScript` IS the model's script for this pair (`pScript_is_model_output`, proved by unfolding
+  `edits` level by level: the kernel cannot evaluate the well-founded recursion directly): MultiSetEdit with the
+  identity match of c:3, KeyValuePairEdit a/a with an EditDistance over the lists and a StringEdit "xy"→"xzy" inside,
+  KeyValuePairEdit b/d.  It satisfies the hypothesis of `project_of_accounts`, and both projections are computed by
+  `rfl`. -/
+
+def pF : Tree := .dict [([97], .list [.leaf (.int 1), .leaf (.int 2), .leaf (.str [120, 121])]), ([98], .leaf (.int 2)),
+  ([99], .leaf (.int 3))]
+def pT : Tree := .dict [([97], .list [.leaf (.int 2), .leaf (.str [120, 122, 121]), .leaf (.int 3)]), ([99], .leaf (.int 3)),
+  ([100], .leaf (.int 2))]
+def pOrc : Oracle := [{ f := [[0], [1]], t := [[0], [2]], pairs := [(1, 1), (0, 0)] }]
+def pScript : Script :=
+  .mk .ms .none .none 4 [
+    .mk .match_ (.at 2) .same 0 [],
+    .mk .kvp (.at 0) (.at 0) 3 [
+      .mk .match_ (.at 0) (.at 0) 0 [],
+      .mk .ed (.at 1) (.at 1) 3 [
+        .mk .remove (.at 0) .none 1 [],
+        .mk .match_ (.at 1) (.at 0) 0 [],
+        .mk .str (.at 2) (.at 1) 1 [
+          .mk .match_ (.at 0) (.at 0) 0 [], .mk .insert (.at 1) .none 1 [], .mk .match_ (.at 1) (.at 2) 0 []],
+        .mk .insert (.at 2) .none 1 []]],
+    .mk .kvp (.at 1) (.at 2) 1 [.mk .match_ (.at 0) (.at 0) 1 [], .mk .match_ (.at 1) (.at 1) 0 []]]
+
+example : pF.KeysDistinct ∧ pT.KeysDistinct := by decide
+
+section
+set_option linter.unusedSimpArgs false
+open GtModel.EditMatrix in
+/-- the list level: `[1, 2, "xy"]` → `[2, "xzy", 3]` (remove 1, match 2, StringEdit "xy"→"xzy", insert 3) -/
+theorem pList_script (fp tp : List Nat) (orc : Oracle) :
+    edits {amk := false} orc fp tp (.list [.leaf (.int 1), .leaf (.int 2), .leaf (.str [120, 121])])
+        (.list [.leaf (.int 2), .leaf (.str [120, 122, 121]), .leaf (.int 3)]) =
+      .mk .ed .none .none 3 [
+        .mk .remove (.at 0) .none 1 [],
+        .mk .match_ (.at 1) (.at 0) 0 [],
+        .mk .str (.at 2) (.at 1) 1 [
+          .mk .match_ (.at 0) (.at 0) 0 [], .mk .insert (.at 1) .none 1 [], .mk .match_ (.at 1) (.at 2) 0 []],
+        .mk .insert (.at 2) .none 1 []] := by
+  have hb : ∀ a b : Tree, (a == b) = a.eq b := fun _ _ => rfl
+  rw [edits_list_list]
+  have h1 : eqL [.leaf (.int 1), .leaf (.int 2), .leaf (.str [120, 121])]
+      [.leaf (.int 2), .leaf (.str [120, 122, 121]), .leaf (.int 3)] = false := by simp [eqL, Tree.eq, Scalar.eq]
+  have h2 : listTbl {amk := false} orc fp tp [.leaf (.int 1), .leaf (.int 2), .leaf (.str [120, 121])]
+      [.leaf (.int 2), .leaf (.str [120, 122, 121]), .leaf (.int 3)] =
+      [[leafEdits (.int 1) (.leaf (.int 2)), leafEdits (.int 1) (.leaf (.str [120, 122, 121])), leafEdits (.int 1) (.leaf (.int 3))],
+       [leafEdits (.int 2) (.leaf (.int 2)), leafEdits (.int 2) (.leaf (.str [120, 122, 121])), leafEdits (.int 2) (.leaf (.int 3))],
+       [leafEdits (.str [120, 121]) (.leaf (.int 2)), leafEdits (.str [120, 121]) (.leaf (.str [120, 122, 121])),
+        leafEdits (.str [120, 121]) (.leaf (.int 3))]] := by
+    simp [listTbl, List.zipIdx, edits_leaf]
+  have h3 : trimLens [Tree.leaf (.int 1), .leaf (.int 2), .leaf (.str [120, 121])]
+      [Tree.leaf (.int 2), .leaf (.str [120, 122, 121]), .leaf (.int 3)] = (0, 0) := by
+    simp [trimLens, sharedPrefixLen, hb, Tree.eq, Scalar.eq]
+  rw [h1, h2]
+  simp only [Bool.false_eq_true, if_false]
+  rw [show (!({amk := false} : Opts).ale || (([Tree.leaf (.int 1), .leaf (.int 2), .leaf (.str [120, 121])] : List Tree).length
+      == ([Tree.leaf (.int 2), .leaf (.str [120, 122, 121]), .leaf (.int 3)] : List Tree).length &&
+      (!({amk := false} : Opts).alesl || ([Tree.leaf (.int 1), .leaf (.int 2), .leaf (.str [120, 121])] : List Tree).length == 1)))
+      = false by decide]
+  simp only [Bool.false_eq_true, if_false]
+  rw [show (if allLeaves [Tree.leaf (.int 1), .leaf (.int 2), .leaf (.str [120, 121])] &&
+      allLeaves [Tree.leaf (.int 2), .leaf (.str [120, 122, 121]), .leaf (.int 3)] &&
+      allPositive [Tree.leaf (.int 1), .leaf (.int 2), .leaf (.str [120, 121])] &&
+      allPositive [Tree.leaf (.int 2), .leaf (.str [120, 122, 121]), .leaf (.int 3)] then 0 else 1) = 0 by decide +kernel]
+  simp only [edScript, h3]
+  exact Script.eq_of_beq _ _ (by decide +kernel)
+
+set_option maxRecDepth 4000 in
+/-- `pScript` is what the model computes for the pair (all three levels) -/
+theorem pScript_is_model_output : edits {amk := false} pOrc [] [] pF pT = pScript := by
+  simp [pF, pT, pOrc, pScript, edits_dict_dict, pList_script, edits_leaf, kvTbl, subKV, findKV, Tree.eq, eqL, Scalar.eq,
+    msScript, kvEq, findKey, List.range_succ, kvpScript, Oracle.lookup, sanitize, sortPairs, insertPair, mkCompound,
+    List.filter_cons, List.getD_eq_getElem?_getD, mkMatch, mkRemove, mkInsert, Script.relabel, List.zipIdx, leafEdits, strEdits,
+    leafLeaf, kvSize, Tree.size, sizeL, Scalar.pyStr, Script.kind, Script.cost, Script.subs, Script.fi, Script.ti, sumCosts]
+end
+
+/-- `project_from` / `project_to` on the model's own script for this pair: the first document with its pairs in
+    script order (identity match c first), the second with the to-key `d` of the pair b↦d -/
+example : projectFrom (.tree pF) (.tree pT) (edits {amk := false} pOrc [] [] pF pT) = some (.tree (.dict
+    [([99], .leaf (.int 3)), ([97], .list [.leaf (.int 1), .leaf (.int 2), .leaf (.str [120, 121])]),
+      ([98], .leaf (.int 2))])) := by rw [pScript_is_model_output]; rfl
+example : projectTo (.tree pF) (.tree pT) (edits {amk := false} pOrc [] [] pF pT) = some (.tree (.dict
+    [([99], .leaf (.int 3)), ([97], .list [.leaf (.int 2), .leaf (.str [120, 122, 121]), .leaf (.int 3)]),
+      ([100], .leaf (.int 2))])) := by rw [pScript_is_model_output]; rfl
+
+
+/-- the script accounts for both documents at all three levels (the hypothesis of `project_of_accounts`) -/
+example : Accounts (.tree pF) (.tree pT) pScript := by
+  simp [Accounts, Walk, WalkL, LocalAcc, pScript, pF, pT, Kind.hasSubs, Kind.ordered, kindFits, fromIdx, toIdx, toIxOf,
+    ixRange, resolveSame, keyResolve, findKey, Nd.children, List.range_succ, Script.kind, Script.fi, Script.ti]
+  constructor <;> decide
+
+/-- discarding the insertions (the inserted `z`, the inserted `3`): the first document, its pairs in script order
+    (identity match c first) — the list `[1,2,"xy"]` and the string `"xy"` are rebuilt element by element -/
+example : projectFrom (.tree pF) (.tree pT) pScript = some (.tree (.dict
+    [([99], .leaf (.int 3)), ([97], .list [.leaf (.int 1), .leaf (.int 2), .leaf (.str [120, 121])]),
+      ([98], .leaf (.int 2))])) := rfl
+
+/-- discarding the removals (the removed `1`): the second document; the key of the pair b↦d is the to-key `d` -/
+example : projectTo (.tree pF) (.tree pT) pScript = some (.tree (.dict
+    [([99], .leaf (.int 3)), ([97], .list [.leaf (.int 2), .leaf (.str [120, 122, 121]), .leaf (.int 3)]),
+      ([100], .leaf (.int 2))])) := rfl
+
+/-- … which is `pF` up to the order of its pairs -/
+example : Tree.Sim (.dict [([99], .leaf (.int 3)), ([97], .list [.leaf (.int 1), .leaf (.int 2), .leaf (.str [120, 121])]),
+    ([98], .leaf (.int 2))]) pF := by
+  simp only [Tree.Sim, pF]
+  exact ⟨_, _, rfl, SimKV.refl _, (List.Perm.swap _ _ _).trans ((List.Perm.swap _ _ _).cons _)⟩
+
+/-- the projections are NOT insensitive to the script: a sub-edit that names the wrong element, a missing sub-edit, an
+    index out of range or an edit kind that does not fit its survivors give another document or none -/
+example : projectFrom (.tree (.list [.leaf (.int 1), .leaf (.int 2)])) (.tree (.list [.leaf (.int 1), .leaf (.int 3)]))
+      (.mk .fixed .none .none 1 [.mk .match_ (.at 0) (.at 0) 0 [], .mk .match_ (.at 0) (.at 1) 1 []])
+    = some (.tree (.list [.leaf (.int 1), .leaf (.int 1)])) := rfl
+example : projectTo (.tree (.list [.leaf (.int 1), .leaf (.int 2)])) (.tree (.list [.leaf (.int 1), .leaf (.int 3)]))
+      (.mk .fixed .none .none 1 [.mk .match_ (.at 0) (.at 0) 0 []])
+    = some (.tree (.list [.leaf (.int 1)])) := rfl
+example : projectFrom (.tree (.list [.leaf (.int 1), .leaf (.int 2)])) (.tree (.list [.leaf (.int 1), .leaf (.int 3)]))
+      (.mk .fixed .none .none 1 [.mk .match_ (.at 0) (.at 0) 0 [], .mk .match_ (.at 2) (.at 1) 1 []]) = none := rfl
+example : projectFrom (.tree (.list [.leaf (.int 1), .leaf (.int 2)])) (.tree (.list [.leaf (.int 1), .leaf (.int 3)]))
+      (.mk .ms .none .none 1 [.mk .match_ (.at 0) (.at 0) 0 [], .mk .match_ (.at 1) (.at 1) 1 []]) = none := rfl
+/-- … and `Tree.Sim` does not identify a re-ordered list or different leaves -/
+example : ¬ Tree.Sim (.list [.leaf (.int 1), .leaf (.int 2)]) (.list [.leaf (.int 2), .leaf (.int 1)]) := by
+  simp [Tree.Sim, SimL]
+example : ¬ Tree.Sim (.dict [([97], .leaf (.int 1))]) (.dict [([97], .leaf (.int 2))]) := by
+  simp [Tree.Sim, SimKV]
 
 def fkvE : List (Str × Tree) := [([97], .leaf (.float [49])), ([98], .leaf .null), ([99], .leaf (.str [120]))]
 def tkvE : List (Str × Tree) := [([98], .leaf (.float [50])), ([100], .leaf (.float [49])), ([97], .leaf (.float [49]))]
